@@ -59,6 +59,7 @@ type Finding struct {
 }
 
 type Ctx struct {
+	APIStatus string // "ok", or why the in-process driver could not be built
 	Prop     string
 	Tier     string
 	Seed     uint64
@@ -317,7 +318,7 @@ func runCheck(ctx *Ctx, ck *Check, auditPath, factsStatus, evidencePath string) 
 				cases = append(cases, Case{Name: fmt.Sprintf("replay-%d", i), Lines: sc, Tag: "replay"})
 			}
 		}
-	} else if ck.Gen != nil {
+	} else if ck.Gen != nil && (ctx.APIStatus == "" || ctx.APIStatus == "ok") {
 		cases = append(cases, ck.Gen(ctx, r)...)
 	}
 	var impl, model [][]string
@@ -565,6 +566,10 @@ func runCheck(ctx *Ctx, ck *Check, auditPath, factsStatus, evidencePath string) 
 		discharged++
 	} else {
 		broken = append(broken, "Generated facts / translated definitions: "+factsStatus)
+	}
+	if ctx.APIStatus != "" && ctx.APIStatus != "ok" {
+		obligations++
+		broken = append(broken, "function-level correspondence: "+ctx.APIStatus)
 	}
 
 	// verdict
